@@ -103,4 +103,47 @@ theorem sideband_none (rs : List (List Char × List Char)) (nm : List Char)
     have h2 := ih (fun x hx => h x (List.mem_cons_of_mem _ hx))
     simp [sideband, h2, h1]
 
+theorem sideband_append (a b : List (List Char × List Char)) (nm : List Char) :
+    sideband (a ++ b) nm = match sideband b nm with | some m => some m | none => sideband a nm := by
+  induction a with
+  | nil =>
+    simp only [List.nil_append]
+    cases h : sideband b nm <;> simp [sideband]
+  | cons r rs ih =>
+    simp only [List.cons_append, sideband, ih]
+    cases sideband b nm <;> rfl
+
+theorem sideband_own (nm : List Char) (msgs : List (List Char)) :
+    sideband (msgs.map (fun m => (nm, m))) nm = msgs.getLast? := by
+  induction msgs with
+  | nil => rfl
+  | cons m ms ih =>
+    simp only [List.map_cons, sideband, ih]
+    cases ms with
+    | nil => simp
+    | cons m' ms' =>
+      have hs : ((m' :: ms').getLast?).isSome = true := by simp [List.getLast?_isSome]
+      rw [List.getLast?_cons_cons]
+      cases h : (m' :: ms').getLast? with
+      | none => simp [h] at hs
+      | some x => rfl
+
+theorem clientRecords_append (a b : List (List Char × List (List Char))) :
+    clientRecords (a ++ b) = clientRecords a ++ clientRecords b := by
+  induction a with
+  | nil => rfl
+  | cons x xs ih => obtain ⟨n, ms⟩ := x; simp [clientRecords, ih]
+
+theorem clientRecords_names (rs : List (List Char × List (List Char))) (nm : List Char)
+    (h : ∀ r ∈ rs, r.1 ≠ nm) : ∀ x ∈ clientRecords rs, x.1 ≠ nm := by
+  induction rs with
+  | nil => intro x hx; simp [clientRecords] at hx
+  | cons r rs ih =>
+    obtain ⟨n, ms⟩ := r
+    intro x hx
+    simp only [clientRecords, List.mem_append, List.mem_map] at hx
+    rcases hx with ⟨m, _, rfl⟩ | hx
+    · exact h (n, ms) List.mem_cons_self
+    · exact ih (fun r hr => h r (List.mem_cons_of_mem _ hr)) x hx
+
 end ConfModel.FeedbackStream
